@@ -1281,6 +1281,27 @@ def sized_payload_truth_tests(repo, typer, f: FuncInfo):
     return out
 
 
+
+def rule_s12(ctx, rule: str, funcs, consequence: str, floor: int = 10):
+    """S12 over the given functions."""
+    n = 0
+    for f in funcs:
+        if isinstance(f.node, ast.Lambda):
+            continue
+        f._s12_examined = 0
+        hits = sized_payload_truth_tests(ctx.repo, ctx.typer, f)
+        n += f._s12_examined
+        for node, t, src, cls in hits:
+            ctx.check(rule, f"S12 {f.local}: presence of {norm(t)} ({src}) is tested with `is None`", False, f, node,
+                      f"`{norm(t)}` is tested by truthiness but it is declared `{src}`: {cls} - an instance without elements (the shape () of a scalar, a graph "
+                      f"without nodes) is falsy although it is a known value; {consequence}",
+                      how="declared type of the tested expression (S10 source tracing) vs package classes defining __len__/__bool__ with further state",
+                      construct=f"truthiness of {src}")
+    for _ in range(n):
+        ctx.counts[rule] = ctx.counts.get(rule, 0) + 1
+    ctx.ob(rule, f"{n} truthiness tests with a declared type examined", True, nontrivial=False, how="S12")
+    ctx.require(n >= floor, f"only {n} typed truthiness tests found")
+
 # ---------------------------------------------------------------------------------------------------------------------- S13
 _CONSUMERS = {"tuple", "list", "set", "frozenset", "sorted", "dict", "enumerate", "zip", "reversed", "any", "all", "sum", "min", "max", "map", "filter", "iter"}
 
